@@ -1120,6 +1120,17 @@ class Step(Node):
         rows = [(self.i, name, os.getenv(name)) for name in env_deps if name not in env_overrides]
         self.db.executemany("INSERT OR IGNORE INTO env_var VALUES (?, ?, ?, 1)", rows)
 
+    def refresh_env_dep(self, name: str) -> None:
+        """Store the current `os.getenv` value of an environment variable this step already uses.
+
+        The stored value is what `startup.rescan_env_vars` compares the environment with,
+        so it has to follow every change that was acted upon.
+        """
+        self.db.execute(
+            "UPDATE env_var SET value = ? WHERE node = ? AND name = ?",
+            (os.getenv(name), self.i, name),
+        )
+
     def env_deps(self, *, dynamic: bool | None = None) -> Iterator[str]:
         """Iterate over used environment variable names (not values)."""
         sql = "SELECT name FROM env_var WHERE node = ?"
